@@ -161,7 +161,8 @@ class Gen:
         out = f'm{self.nmerged}.aeic-store'
         mop = {'out': out, 'inputs': order}
         if order == names and rng.random() < 0.5:
-            mop['pattern'] = {'pattern': f'g{gid}_{{index}}.nc', 'lo': 0, 'hi': len(names) - 1}
+            b = self.groups[gid].get('base_index', 0)
+            mop['pattern'] = {'pattern': f'g{gid}_{{index}}.nc', 'lo': b, 'hi': b + len(names) - 1}
         if what == 'refused':
             mop.pop('pattern', None)
             mop.update(op='merge_refused', kind=kind)
@@ -201,7 +202,7 @@ class Gen:
     def _create_in_group(self, gid, force_file=False):
         g = self.groups[gid]
         sid = self.new_sid()
-        i = len(g['files'])
+        i = g.get('base_index', 0) + len(g['files'])
         name = f'g{gid}_{i}.nc'
         g['files'].append(name)
         fs = list(g['fs'])
@@ -245,7 +246,7 @@ class Gen:
             n_assoc = rng.randint(1, min(2, len(fs)))
         # species universe for the group (decided by the first trajectory of each file)
         g = {'fs': fs, 'ident': ident, 'n_assoc': n_assoc, 'files': [], 'layout': layout,
-             'species': self._species_universe()}
+             'species': self._species_universe(), 'base_index': rng.choice([0, 0, 0, 8, 9, 98])}
         self.groups[gid] = g
         self.used_ids[gid] = []
         return gid
@@ -519,7 +520,7 @@ class Gen:
         sess = rng.choice(ss)
         gid = self._gid_of(sess)
         g = self.groups[gid]
-        i = len(g['files'])
+        i = g.get('base_index', 0) + len(g['files'])
         name = f'g{gid}_{i}.nc'
         g['files'].append(name)
         assoc = []
@@ -541,7 +542,8 @@ class Gen:
             return None
         fsets = rng.sample(avail, rng.randint(1, min(2, len(avail))))
         g = self.groups[f.group]
-        sp = {fld: list(g['species']) for fld in G.species_fields(fsets)}
+        uni = list(g['species']) if rng.random() < 0.5 else self._species_universe()
+        sp = {fld: list(uni) for fld in G.species_fields(fsets)}
         return {'op': 'create_assoc', 'sess': sess.sid, 'file': f'{f.name[:-3]}.x{len(f.extra_assoc)}.nc',
                 'fs': fsets, 'fn_seed': rng.randint(1, 10 ** 6), 'species': sp,
                 'extreme': rng.random() < self.cfg['extreme_p']}
@@ -564,7 +566,10 @@ class Gen:
         fs = list(f.all_fs)
         first = not f.exists
         if kind == 'required_none':
-            spec = self.traj_spec(gid, first_of_file=first, fs=fs, ident=f.ident if f.exists else None)
+            # before the first successful addition the rejected trajectory may use identifiers
+            # differently from the ones that follow: it must not decide anything
+            ident = f.ident if f.exists else rng.choice([None, True, False])
+            spec = self.traj_spec(gid, first_of_file=first, fs=fs, ident=ident)
             spec['set_none'] = [rng.choice(G.required_fields(fs))]
         elif kind == 'extra_fieldset':
             avail = [x for x in G.EXTRA_SETS if x not in fs]
